@@ -141,9 +141,26 @@ GenConstraint ==
 
 \* `bad` becomes TRUE iff some deviant is accepted somewhere.
 VARIABLE bad
-DevNext == \E e \in Deviants \cup WrongKind : XzStep(e, off, utotal)
-GenSpec == XzInit /\ bad = FALSE
-           /\ [][(GenNext /\ bad' = bad) \/ (DevNext /\ bad' = TRUE)]_<<xzvars, bad>>
+DevNext == (\E e \in Deviants \cup WrongKind : XzStep(e, off, utotal)) /\ bad' = TRUE
+
+\* One named action per action of XzLayout, so that TLC's coverage report
+\* (-coverage 1) says how often each one was taken.
+GSHeader  == (\E e \in Plausible : SHeader(e)) /\ bad' = bad
+GBHeader  == (\E e \in Plausible : BHeader(e)) /\ bad' = bad
+GChunk    == (\E e \in Plausible : Chunk(e)) /\ bad' = bad
+GChunkEnd == (\E e \in Plausible : ChunkEnd(e)) /\ bad' = bad
+GBPad     == (\E e \in Plausible : BPad(e)) /\ bad' = bad
+GCheck    == (\E e \in Plausible : Check(e)) /\ bad' = bad
+GIHead    == (\E e \in Plausible : IHead(e)) /\ bad' = bad
+GIRec     == (\E e \in Plausible : IRec(e)) /\ bad' = bad
+GIEnd     == (\E e \in Plausible : IEnd(e)) /\ bad' = bad
+GFooter   == (\E e \in Plausible : Footer(e)) /\ bad' = bad
+GSPad     == (\E e \in Plausible : SPad(e)) /\ bad' = bad
+GEof      == (\E e \in Plausible : XzEof(e, off, utotal)) /\ bad' = bad
+
+GenNextAll == GSHeader \/ GBHeader \/ GChunk \/ GChunkEnd \/ GBPad \/ GCheck \/ GIHead \/ GIRec \/ GIEnd
+              \/ GFooter \/ GSPad \/ GEof \/ DevNext
+GenSpec == XzInit /\ bad = FALSE /\ [][GenNextAll]_<<xzvars, bad>>
 
 DeviantsRefused == ~bad
 
